@@ -30,6 +30,9 @@ type c09Case struct {
 	Exts []recext.ExtSpec `json:"exts"`
 	// PairSeed selects which pairs are sampled when the pair space is large.
 	PairSeed uint32 `json:"pair_seed"`
+	// RealRootPath: the scan root carries a path (ScanRoot.Path), as the roots of a directory
+	// scan do, while the file system stays the fault-injecting one.
+	RealRootPath bool `json:"real_root_path,omitempty"`
 	// Only, when non-empty, restricts the run to these fault sets (replay of one finding).
 	Only []c09Run `json:"only,omitempty"`
 }
@@ -78,6 +81,8 @@ func genC09(t *rapid.T) c09Case {
 			c.Cfg.PathsToExtract = append(c.Cfg.PathsToExtract, c.Tree.Nodes[rapid.IntRange(0, len(c.Tree.Nodes)-1).Draw(t, "path_node")].Path)
 		}
 		c.Cfg.IgnoreSubDirs = rapid.IntRange(0, 3).Draw(t, "ignore_subdirs") == 0
+	} else {
+		c.RealRootPath = rapid.IntRange(0, 2).Draw(t, "real_root_path") == 0
 	}
 	return c
 }
@@ -134,7 +139,11 @@ func (c c09Case) run(r c09Run) scanOut {
 	// "the scan still terminates": a scan of a dozen in-memory nodes takes milliseconds; one
 	// that has not returned after five minutes is reported as non-terminating (a short limit is not a correctness signal on a busy machine).
 	done := make(chan scanOut, 1)
-	go func() { done <- runScan(virtualRoot(mfs), cfg, c.Exts, nil) }()
+	roots := virtualRoot(mfs)
+	if c.RealRootPath {
+		roots[0].Path = "/verif-c09-root"
+	}
+	go func() { done <- runScan(roots, cfg, c.Exts, nil) }()
 	if out, ok := ev.Await(done, 20*time.Second, ev.HangLimit); ok {
 		return out
 	}
@@ -500,6 +509,9 @@ func propC09(c c09Case) (ev.Outcome, error) {
 	o.Classes = append(o.Classes, "scenario")
 	if len(c.Cfg.PathsToExtract) > 0 {
 		o.Classes = append(o.Classes, "scenario_with_listed_paths")
+	}
+	if c.RealRootPath {
+		o.Classes = append(o.Classes, "scenario_root_with_path")
 	}
 	return o, nil
 }
